@@ -74,6 +74,8 @@ impl Scenario for MacScenario {
         // seeded order (so MAC batches become ready out of order), then everything is opened
         p["drive"] = json!(if !self.tampered && ["fp31", "fp32", "fp25519"].contains(&field) && r.chance(1, 2) { "two_phase" } else { "pipeline" });
         p["order_seed"] = json!(r.next_u64() >> 12);
+        // local arithmetic on the MAC-protected shares before the multiplication (0 = none; else the operation rotates per record)
+        p["lin"] = json!(if ["fp31", "fp32", "fp25519"].contains(&field) && r.chance(1, 2) { r.range(1, 8) } else { 0 });
         if self.tampered {
             p["corrupt"] = json!(r.below(3));
             p["site_seed"] = json!(r.next_u64() >> 12);
@@ -137,6 +139,34 @@ impl MacField for Fp25519 {
     }
 }
 
+type Mal<F> = crate::secret_sharing::replicated::malicious::AdditiveShare<F>;
+
+/// Local (communication-free) arithmetic on MAC-protected shares before the multiplication: a' = lin(a, b).
+/// 0: a, 1: a + b, 2: a - b, 3: a += b, 4: a -= b, 5: -a, 6: a * 3, 7: a -= b (by value), 8: (a - b) by value
+fn lin<F: MacField>(op: usize, a: Mal<F>, b: &Mal<F>) -> Mal<F> {
+    match op {
+        1 => a + b,
+        2 => a - b,
+        3 => { let mut t = a; t += b; t }
+        4 => { let mut t = a; t -= b; t }
+        5 => -a,
+        6 => a * (F::ONE + F::ONE + F::ONE),
+        7 => { let mut t = a; t -= b.clone(); t }
+        8 => a - b.clone(),
+        _ => a,
+    }
+}
+
+fn lin_plain<F: MacField>(op: usize, x: F, y: F) -> F {
+    match op {
+        1 | 3 => x + y,
+        2 | 4 | 7 | 8 => x - y,
+        5 => -x,
+        6 => x * (F::ONE + F::ONE + F::ONE),
+        _ => x,
+    }
+}
+
 fn run_f<F>(p: &Value, spec: &SchedSpec, xs: &[F], ys: &[F], sites: Vec<Site>) -> OneRun
 where
     F: MacField,
@@ -150,6 +180,7 @@ where
     let (active, read_size, world_seed) = (pu(knobs, "active"), pu(knobs, "read_size"), pu64(knobs, "world_seed"));
     let input_seed = pu64(p, "input_seed");
     let two_phase = p.get("drive").and_then(Value::as_str) == Some("two_phase");
+    let lin_op = p.get("lin").and_then(Value::as_u64).unwrap_or(0) as usize;
     let order: Vec<usize> = Rng::sub(p.get("order_seed").and_then(Value::as_u64).unwrap_or(0), 7).perm(records);
     let (tamper, interceptor) = faults::tamper_many(sites);
     let log: StdArc<StdMutex<BTreeMap<usize, HelperRes>>> = StdArc::new(StdMutex::new(BTreeMap::new()));
@@ -182,6 +213,7 @@ where
                                 .try_join(zip(repeat(m_ctx.clone()).enumerate(), shares.into_iter()).map(|((i, c), (a, b))| async move {
                                     let rid = RecordId::from(i);
                                     let (a, b) = (a, b).upgrade(c.narrow("upgrade"), rid).await?;
+                                    let a = lin::<F>(if lin_op == 0 { 0 } else { 1 + (lin_op + i) % 8 }, a, &b);
                                     a.multiply(&b, c.narrow("mult"), rid).await
                                 }))
                                 .await?;
@@ -204,6 +236,7 @@ where
                             .try_join(zip(repeat(m_ctx.clone()).enumerate(), shares.into_iter()).map(|((i, c), (a, b))| async move {
                                 let rid = RecordId::from(i);
                                 let (a, b) = (a, b).upgrade(c.narrow("upgrade"), rid).await?;
+                                let a = lin::<F>(if lin_op == 0 { 0 } else { 1 + (lin_op + i) % 8 }, a, &b);
                                 let z = a.multiply(&b, c.narrow("mult"), rid).await?;
                                 c.validate_record(rid).await?;
                                 let opened = reveal(c.narrow("open"), rid, &z).await?;
@@ -366,7 +399,7 @@ impl<E: Field + Serializable> RushCz<E> {
     }
 }
 
-async fn pipeline<'a, F>(ctx: crate::protocol::context::MaliciousContext<'a>, shares: Vec<(Replicated<F>, Replicated<F>)>, records: usize, ignore_own_verdict: bool) -> Result<Vec<Vec<u8>>, Error>
+async fn pipeline<'a, F>(ctx: crate::protocol::context::MaliciousContext<'a>, shares: Vec<(Replicated<F>, Replicated<F>)>, records: usize, ignore_own_verdict: bool, lin_op: usize) -> Result<Vec<Vec<u8>>, Error>
 where
     F: MacField,
     (Replicated<F>, Replicated<F>): Upgradable<crate::protocol::context::UpgradedMaliciousContext<'a, F>, Output = (crate::secret_sharing::replicated::malicious::AdditiveShare<F>, crate::secret_sharing::replicated::malicious::AdditiveShare<F>)>,
@@ -379,6 +412,7 @@ where
         .try_join(zip(repeat(m_ctx.clone()).enumerate(), shares.into_iter()).map(|((i, c), (a, b))| async move {
             let rid = RecordId::from(i);
             let (a, b) = (a, b).upgrade(c.narrow("upgrade"), rid).await?;
+            let a = lin::<F>(if lin_op == 0 { 0 } else { 1 + (lin_op + i) % 8 }, a, &b);
             let z = a.multiply(&b, c.narrow("mult"), rid).await?;
             // a corrupt helper does not stop because its own view of the check disagrees: it goes on to the opening
             let verdict = c.validate_record(rid).await;
@@ -422,6 +456,7 @@ where
     let log2 = StdArc::clone(&log);
     let (xs, ys) = (xs.to_vec(), ys.to_vec());
     let slow = p.get("slow_corrupt").and_then(Value::as_bool) != Some(false);
+    let lin_op = p.get("lin").and_then(Value::as_u64).unwrap_or(0) as usize;
     let outcome = sim_async(spec, StdArc::new(AtomicBool::new(false)), move || {
         let (log, xs, ys, interceptor) = (StdArc::clone(&log2), xs.clone(), ys.clone(), interceptor.clone());
         async move {
@@ -450,7 +485,7 @@ where
                         // F5, targeted: the corrupt helper's task only moves when nobody else can
                         crate::verif::sim::mark_current_task_slow();
                     }
-                    let r = pipeline::<F>(ctx, shares, records, h == corrupt && mode != 1).await;
+                    let r = pipeline::<F>(ctx, shares, records, h == corrupt && mode != 1, lin_op).await;
                     log.lock().unwrap().insert(h, r.map_err(|e| e.to_string()));
                 }));
             }
@@ -483,7 +518,9 @@ where
     let mut rng = StdRng::seed_from_u64(pu64(p, "input_seed"));
     let xs: Vec<F> = (0..records).map(|i| if i % 5 == 3 { F::ZERO } else if i % 7 == 2 { F::ONE } else { F::draw(&mut rng) }).collect();
     let ys: Vec<F> = (0..records).map(|i| if i % 6 == 4 { F::ZERO } else { F::draw(&mut rng) }).collect();
-    let want: Vec<Vec<u8>> = zip(&xs, &ys).map(|(x, y)| ser(&(*x * *y))).collect();
+    // (local arithmetic before the multiplication: record i uses operation 1 + (lin + i) % 8 when lin > 0)
+    let lin_op = p.get("lin").and_then(Value::as_u64).unwrap_or(0) as usize;
+    let want: Vec<Vec<u8>> = zip(&xs, &ys).enumerate().map(|(i, (x, y))| ser(&(lin_plain::<F>(if lin_op == 0 { 0 } else { 1 + (lin_op + i) % 8 }, *x, *y) * *y))).collect();
     let spec = SchedSpec::from_json(&p["sched"], explicit);
     let shape = format!("mac {field} r{records} a{} t{} {}", pu(&p["knobs"], "active"), u8::from(tampered), p.get("drive").and_then(Value::as_str).unwrap_or("pipeline"));
     let honest = run_f::<F>(p, &spec, &xs, &ys, Vec::new());
